@@ -92,15 +92,16 @@ def decBranch (s : Sch) : Dec → List String
 def parseResp (j : Json) : String × Resp :=
   (getStr j "key",
    { headers := (getArr j "headers").map parseHdr,
-     content := (getArr j "content").map (fun c => (getStr c "mime", ({ schema := parseOSch c "schema" } : MediaType))) })
+     content := (getArr j "content").map (fun c => (getStr c "mime", ({ schema := parseOSch c "schema" } : MediaType))),
+     resolved := !getBool j "unresolved" })
 
 def errStr : Err → String
-  | .statusNotSupported => "status" | .hdrMissing n => "hdrMissing:" ++ n | .hdrDecode n => "hdrDecode:" ++ n
+  | .statusNotSupported => "status" | .respUnresolved => "unresolved" | .hdrMissing n => "hdrMissing:" ++ n | .hdrDecode n => "hdrDecode:" ++ n
   | .hdrSchema n => "hdrSchema:" ++ n | .hdrPanic _ => "panic" | .ctUndeclared => "ct" | .bodyRead => "bodyRead"
   | .bodyDecode => "bodyDecode" | .bodySchema => "bodySchema"
 
 def errBranch : Err → String
-  | .statusNotSupported => "err.status" | .hdrMissing _ => "err.hdrMissing" | .hdrDecode _ => "err.hdrDecode"
+  | .statusNotSupported => "err.status" | .respUnresolved => "err.unresolved" | .hdrMissing _ => "err.hdrMissing" | .hdrDecode _ => "err.hdrDecode"
   | .hdrSchema _ => "err.hdrSchema" | .hdrPanic _ => "err.hdrPanic" | .ctUndeclared => "err.ct" | .bodyRead => "err.bodyRead"
   | .bodyDecode => "err.bodyDecode" | .bodySchema => "err.bodySchema"
 
@@ -143,7 +144,7 @@ def handle (j : Json) : Json :=
   let spec := acceptB canon genReg o i
   -- what the model's header decoder makes of every declared, schema-described header that the response carries
   -- (compared with the real decoder on every case)
-  let hdrDecs : List Json := i.responses.flatMap (fun kr =>
+  let hdrDecs : List Json := (i.responses.filter (fun kr => kr.2.resolved)).flatMap (fun kr =>
     kr.2.headers.filterMap (fun h => match hdrDec canon i.hdrs h with
       | some d => some (Json.arr #[Json.str (kr.1 ++ "/" ++ h.name), decJson d])
       | none => none))
